@@ -74,12 +74,17 @@ def analyse(tree):
     for need in ("_use_hints", "_schedule_connection"):
         if need not in funcs2:
             raise AnalysisError("Connector.%s not found" % need)
-    B = jg.Analyzer(funcs2, nts, {"_tor": jg.OTHER, "_no_listen": jg.PY("bool"), "_reactor": jg.OTHER, "_manager": jg.OTHER}, file_of2)
+    own_relay = jg.OBJ("RelayV1Hint", {"hints": jg.CONT("tuple", trusted_hint)})
+    B = jg.Analyzer(funcs2, nts, {"_tor": jg.OTHER, "_no_listen": jg.PY("bool"), "_reactor": jg.OTHER, "_manager": jg.OTHER,
+                                  "_transit_relays": jg.CONT("list", own_relay)}, file_of2)
+    B.peer_sequences_may_be_empty = True
     B.stack[:] = ["parse_hint"]
     parsed = B.inline(funcs2["parse_hint"], [hint_dict], {})
     objs = jg.CONT("list", jg.truthy_split(parsed)[0])
-    B.stack[:] = ["_use_hints"]
-    B.inline(funcs2["_use_hints"], [objs], {})
+    # (the Automat output `use_hints` in front of _use_hints is part of the path when it exists)
+    entry = "use_hints" if "use_hints" in funcs2 else "_use_hints"
+    B.stack[:] = [entry]
+    B.inline(funcs2[entry], [objs], {})
     return A, B, nts
 
 
